@@ -1,6 +1,6 @@
 (** Property C14 — the theorems the check counts as obligations.  Nothing but
     statements closed by [exact] and [Print Assumptions]. *)
-From HS Require Import Base.Prelude C14.Model C14.LsmProofs C14.ConcProofs.
+From HS Require Import Base.Prelude C14.Model C14.LsmProofs C14.ConcProofs C14.KvTxnModel C14.KvTxnProofs.
 Local Open Scope Z_scope.
 
 (** LSM tree, sequential operations: after ANY sequence of put/delete (any
@@ -44,3 +44,37 @@ Print Assumptions c14_lsm_overlap_refuted.
 Theorem c14_lsm_scan_overlap_refuted : reads_ok (history w2_cfg bl_exact w2_sched) = false.
 Proof. exact lsm_scan_overlap_refuted. Qed.
 Print Assumptions c14_lsm_scan_overlap_refuted.
+
+(** KVStore (no capacity limit), ANY overlap: results and final contents are
+    those of executing the operations one at a time in completion order ... *)
+Theorem c14_kv_linearizable : forall sch d ps,
+  let '(w', es) := kv_run (d, ps) sch in
+  kv_seq d (map ev_op es) = (fst w', map ev_out es).
+Proof. exact kv_linearizable. Qed.
+Print Assumptions c14_kv_linearizable.
+
+(** ... and that sequential execution is a map: a read returns the latest
+    preceding write to its key (a completion-point linearization lies inside
+    every operation's interval, so this is the overlap clause for the KVStore). *)
+Theorem c14_kv_seq_is_map : forall ops d m, dsorted d -> (forall k, dget k d = m k) ->
+  forall i k, nth_error ops i = Some (KGet k) ->
+  nth_error (snd (kv_seq d ops)) i = Some (KOGet (fold_left kspec_apply (firstn i ops) m k)).
+Proof. exact kv_seq_is_map. Qed.
+Print Assumptions c14_kv_seq_is_map.
+
+(** Transactions, ANY interleaving, any mix of isolation levels: every value a
+    committed SERIALIZABLE transaction read from the store is the value current
+    at its commit instant, where its writes are applied atomically: committed
+    transactions are equivalent to their serial execution in commit order. *)
+Theorem c14_occ_serializable : forall sch id t,
+  tx_get id (m_txs (fst (t_run sch))) = Some t ->
+  t_status t = Committed -> t_iso t = SER ->
+  forall k v, In (k, v) (t_reads t) -> dget k (t_cstore t) = v.
+Proof. exact occ_serializable. Qed.
+Print Assumptions c14_occ_serializable.
+
+(** Snapshot isolation reads from one snapshot: REFUTED (known finding
+    C14-si-reads-live). *)
+Theorem c14_si_snapshot_refuted : ~ si_statement.
+Proof. exact si_snapshot_refuted. Qed.
+Print Assumptions c14_si_snapshot_refuted.
